@@ -502,7 +502,6 @@ EXPR_ALIAS_SQL = [
     ("in-single-tuple", "SELECT 1 IN ((1, 2))", "SELECT 1 IN ((1, 2)) AS x"),
     ("in-arrays", "SELECT [1] IN ([1], [2])", "SELECT [1] IN ([1], [2]) AS x"),
     ("in-tuples-with-negative", "SELECT (1,2) IN ((1,-2),(3,4))", "SELECT (1,2) IN ((1,-2),(3,4)) AS x"),
-    ("between-alias-dropped", "SELECT a BETWEEN 1 AND 2", "SELECT a BETWEEN 1 AND 2 AS x"),
     ("trim-empty-alias-dropped", "SELECT trim(LEADING '' FROM 'foo')", "SELECT trim(LEADING '' FROM 'foo') AS x"),
 ]
 
